@@ -6,7 +6,7 @@ from . import c03core
 PID = "C03"
 LEVEL = "exploration"
 RULE = ("models: generation-by-execution DAGs (vf/modelgen.py, ~70 ops + optimizer-targeted motifs, If/Loop/functions/"
-        "sequences/initializer-inputs; every model checker-valid and executed before use) and node/simple/converted "
+        "sequences/initializer-inputs; Cast chains through the whole signed/unsigned 8-64-bit integer family fed by signed graph inputs; model-local functions whose bodies match initializer-creating rewrite rules (such models always also get rewrite() and optimize(inline=False)); legacy Dropout with a ratio attribute and its mask as a graph output; every model checker-valid and executed before use) and node/simple/converted "
         "models shipped in the installed onnx package lifted (as-is / inputs->initializers / wrapped in If / body moved into a model-local function, with and without inputs->initializers) with recorded "
         "expectations as tie-breaker; per model: default options + random option tuples over "
         "{optimize, optimize_ir, fold_constants, rewrite, remove_unused_nodes} x {proto, ir} x num_iterations x "
